@@ -36,7 +36,7 @@ level("C15",
 _book = ("Opening book (Props/C04_book.lean, model Impl/Book.lean of ai/opening.go, random choice = arbitrary oracle within the Int31n contract): book_entries_legal (in a book built without error every entry has a reply, weights are positive, every stored reply is "
          "rule-book-legal in a rebuilt image of a book-line position with the entry's key), book_contains_images (the hash of each of the eight images of each book-line position with a continuation is a key), book_moves_legal (whenever GetMove answers, "
          "the move is rule-book-legal in the looked-up position, provided that position does not collide with a different stored image), book_answers_images (for book positions and all their images GetMove answers, no 'not in book', no Int31n panic while weights < 2^31); "
-         "derived from C14 step_equivariant/transformMove_spec under PosFacts (C01: Move sound w.r.t. the rule book and invariant-preserving; the k-th rebuilt image shows the k-image) — these hypotheses and the no-collision hypothesis are not proved here. "
+         "derived from C14 step_equivariant/transformMove_spec under PosFacts (Move sound w.r.t. the rule book and invariant-preserving, along the book lines) and ImageFact (the k-th rebuilt image shows the k-image); book_moves_legal_default: for the default games up to 6x6 and lines without the internal pass move, PosFacts/LinesOk are discharged from C01.move_refines and the piece budget, leaving ImageFact (not proved; exercised by the ssyms op) and the no-collision hypothesis. "
          "Correspondence: the two built-in books as built by playtak's init() and rebuilt, random books sharing prefixes directly and through a symmetry, malformed lines; all prefix positions under all eight maps looked up, stored replies and weights compared with the model, "
          "24 seeded real GetMove calls per position must return a stored reply accepted by Move.")
 if "C04" in LEVEL:
